@@ -54,7 +54,37 @@ fn run(j: &Job) -> (String, Ctx) {
 /// One round per grammar: three threads start the same parses of that grammar at the same time, so that whatever the
 /// grammar's features initialise lazily on first use (tables, caches, registries) is initialised under contention.
 /// The sequential reference is computed after all rounds.
-fn first_use_rounds(seed: u64) {
+/// Reference results from ANOTHER process (a native, sequential run of this program in mode `first-ref`): a corruption
+/// that sticks to the process once it has happened would spoil an in-process reference in the same way as the results.
+fn load_reference(path: Option<String>) -> std::collections::HashMap<(String, String), String> {
+    let mut m = std::collections::HashMap::new();
+    if let Some(p) = path {
+        let text = std::fs::read_to_string(&p).expect("reference file");
+        for l in text.lines() {
+            // REF <variant> <input> <result>   or   REF <variant> <rule> <input> <result>  (inputs are Debug-quoted)
+            let f: Vec<&str> = l.split('\t').collect();
+            if f.len() == 4 && f[0] == "REF" {
+                m.insert((f[1].to_string(), f[2].to_string()), f[3].to_string());
+            } else if f.len() == 5 && f[0] == "REF" {
+                m.insert((format!("{}\t{}", f[1], f[2]), f[3].to_string()), f[4].to_string());
+            }
+        }
+        assert!(!m.is_empty(), "empty reference file");
+    }
+    m
+}
+
+fn first_use_rounds(seed: u64, reference_only: bool, reference_file: Option<String>) {
+    let external = load_reference(reference_file);
+    let reference_of = |j: &Job| -> String {
+        match external.get(&(j.variant.to_string(), format!("{:?}", j.input))) {
+            Some(r) => r.clone(),
+            None => {
+                assert!(external.is_empty(), "job missing from the reference file: {} {:?}", j.variant, j.input);
+                format!("{:?}", run(j))
+            }
+        }
+    };
     let mut rng = Rng(seed);
     let mut rounds: Vec<(Vec<Job>, Vec<Vec<(String, Ctx)>>)> = Vec::new();
     for (g, inputs) in INPUTS {
@@ -69,6 +99,12 @@ fn first_use_rounds(seed: u64) {
             .take(2)
             .map(|i| Job { variant: v.name, rule: v.exported[0], input: i.to_string(), entry: Entry::Parse, ctx: Ctx { retval: 7, a_count: 3, calls: 0 } })
             .collect();
+        if reference_only {
+            for j in &jobs {
+                println!("REF\t{}\t{:?}\t{:?}", j.variant, j.input, run(j));
+            }
+            continue;
+        }
         let shared = Arc::new(jobs.clone());
         let barrier = Arc::new(std::sync::Barrier::new(3));
         let handles: Vec<_> = (0..3)
@@ -84,12 +120,60 @@ fn first_use_rounds(seed: u64) {
         let results = handles.into_iter().map(|h| h.join().expect("thread")).collect();
         rounds.push((jobs, results));
     }
+    // mixed rounds: three DIFFERENT grammars start at the same time, each thread meeting texts, rules and errors that no
+    // other thread has met (whatever the runtime registers or interns on first sight is registered under contention)
+    let mut mixed: Vec<(Vec<Job>, Vec<(String, Ctx)>)> = Vec::new();
+    let groups: Vec<&(&str, &[&str])> = INPUTS.iter().filter(|(g, _)| VARIANTS.iter().any(|v| v.grammar == *g)).collect();
+    for trio in groups.chunks(3) {
+        let barrier = Arc::new(std::sync::Barrier::new(trio.len()));
+        let mut handles = Vec::new();
+        let mut all_jobs = Vec::new();
+        for (g, inputs) in trio.iter().map(|x| **x) {
+            let vs: Vec<_> = VARIANTS.iter().filter(|v| v.grammar == g).collect();
+            let v = vs[(rng.next() % vs.len() as u64) as usize];
+            // failing inputs first (they are listed last), each with a tail no other thread uses
+            let jobs: Vec<Job> = inputs
+                .iter()
+                .rev()
+                .map(|i| Job { variant: v.name, rule: v.exported[0], input: format!("{i}{}", ["", " ?", " %"][(rng.next() % 3) as usize]), entry: Entry::Parse, ctx: Ctx { retval: 7, a_count: 3, calls: 0 } })
+                .collect();
+            if reference_only {
+                for j in &jobs {
+                    println!("REF\t{}\t{:?}\t{:?}", j.variant, j.input, run(j));
+                }
+                continue;
+            }
+            all_jobs.push(jobs.clone());
+            let barrier = barrier.clone();
+            handles.push(std::thread::spawn(move || {
+                barrier.wait();
+                jobs.iter().map(run).collect::<Vec<_>>()
+            }));
+        }
+        for (jobs, h) in all_jobs.into_iter().zip(handles) {
+            mixed.push((jobs, h.join().expect("thread")));
+        }
+    }
+    if reference_only {
+        return;
+    }
     let mut bad = 0;
+    for (jobs, got) in &mixed {
+        for (j, g) in jobs.iter().zip(got) {
+            let reference = reference_of(j);
+            let g = format!("{g:?}");
+            if g != reference {
+                bad += 1;
+                println!("DIFFERENCE mixed first-use round ({}, {:?}): sequential reference {:?}, concurrent {:?}", j.variant, j.input, reference, g);
+            }
+        }
+    }
     for (jobs, results) in &rounds {
-        let reference: Vec<(String, Ctx)> = jobs.iter().map(run).collect();
+        let reference: Vec<String> = jobs.iter().map(|j| reference_of(j)).collect();
         for (t, r) in results.iter().enumerate() {
             for (i, got) in r.iter().enumerate() {
-                if *got != reference[i] {
+                let got = format!("{got:?}");
+                if got != reference[i] {
                     bad += 1;
                     println!("DIFFERENCE first-use round, thread {t} ({}, {:?}): sequential reference {:?}, concurrent {:?}", jobs[i].variant, jobs[i].input, reference[i], got);
                 }
@@ -103,13 +187,94 @@ fn first_use_rounds(seed: u64) {
     }
 }
 
+/// Lock-step rounds: three threads, each with its own grammars, meet at a barrier before EVERY parse, and every parse
+/// is a short text that fails somewhere new (a sentence cut at a seeded place, or a character nobody expects), so that
+/// in every step three threads see rules, literals and error kinds for the first time in the process at the same moment.
+/// A rendezvous per step lines up what random preemption alone almost never lines up: check-then-act windows in
+/// whatever the runtime registers, interns or counts on first sight.  Judged against the out-of-process reference.
+fn lockstep_rounds(seed: u64, reference_only: bool, reference_file: Option<String>) {
+    let external = load_reference(reference_file);
+    let mut rng = Rng(seed ^ 0x10C4);
+    let groups: Vec<&(&str, &[&str])> = INPUTS.iter().filter(|(g, _)| VARIANTS.iter().any(|v| v.grammar == *g)).collect();
+    // probes of thread t: grammars t, t+3, t+6, ..; per grammar every sentence cut at two seeded places and with a foreign tail
+    let mut lists: Vec<Vec<Job>> = vec![Vec::new(), Vec::new(), Vec::new()];
+    for (gi, (g, inputs)) in groups.iter().map(|x| **x).enumerate() {
+        let vs: Vec<_> = VARIANTS.iter().filter(|v| v.grammar == g).collect();
+        let v = vs[(rng.next() % vs.len() as u64) as usize];
+        for inp in inputs.iter() {
+            let chars: Vec<char> = inp.chars().collect();
+            for _ in 0..4 {
+                let cut = (rng.next() % (chars.len() as u64 + 1)) as usize;
+                let mut text: String = chars[..cut].iter().collect();
+                text.push_str(["", "%", "\u{1}", " ~"][(rng.next() % 4) as usize]);
+                let rule = v.exported[(rng.next() % v.exported.len() as u64) as usize];
+                lists[gi % 3].push(Job { variant: v.name, rule, input: text, entry: Entry::Parse, ctx: Ctx { retval: 7, a_count: 3, calls: 0 } });
+            }
+        }
+    }
+    let steps = lists.iter().map(|l| l.len()).min().unwrap_or(0).min(120);
+    if reference_only {
+        for l in &lists {
+            for j in &l[..steps] {
+                println!("REF\t{}\t{}\t{:?}\t{:?}", j.variant, j.rule, j.input, run(j));
+            }
+        }
+        return;
+    }
+    let barrier = Arc::new(std::sync::Barrier::new(3));
+    let handles: Vec<_> = lists
+        .into_iter()
+        .map(|l| {
+            let barrier = barrier.clone();
+            std::thread::spawn(move || {
+                let mut out = Vec::new();
+                for j in &l[..steps] {
+                    barrier.wait();
+                    out.push((j.clone(), format!("{:?}", run(j))));
+                }
+                out
+            })
+        })
+        .collect();
+    let mut bad = 0;
+    for h in handles {
+        for (j, got) in h.join().expect("thread") {
+            let reference = match external.get(&(format!("{}\t{}", j.variant, j.rule), format!("{:?}", j.input))) {
+                Some(r) => r.clone(),
+                None => {
+                    assert!(external.is_empty(), "job missing from the reference file: {} {} {:?}", j.variant, j.rule, j.input);
+                    format!("{:?}", run(&j))
+                }
+            };
+            if got != reference {
+                bad += 1;
+                println!("DIFFERENCE lock-step round ({} {}, {:?}): out-of-process reference {}, concurrent {}", j.variant, j.rule, j.input, reference, got);
+            }
+        }
+    }
+    if bad == 0 {
+        println!("MIRI_THREADS ok seed={seed} lockstep_steps={steps} threads=3");
+    } else {
+        std::process::exit(1);
+    }
+}
+
 fn main() {
+    if std::env::args().nth(3).as_deref() == Some("lockstep") {
+        return lockstep_rounds(std::env::args().nth(1).and_then(|s| s.parse().ok()).unwrap_or(1), false, std::env::args().nth(4));
+    }
+    if std::env::args().nth(3).as_deref() == Some("lockstep-ref") {
+        return lockstep_rounds(std::env::args().nth(1).and_then(|s| s.parse().ok()).unwrap_or(1), true, None);
+    }
     let seed: u64 = std::env::args().nth(1).and_then(|s| s.parse().ok()).unwrap_or(1);
     let njobs: usize = std::env::args().nth(2).and_then(|s| s.parse().ok()).unwrap_or(20);
     // "ws": only inputs with long whitespace runs through the built-in skipper, parsed by all threads at once
     let mode = std::env::args().nth(3).unwrap_or_default();
     if std::env::args().nth(3).as_deref() == Some("first") {
-        return first_use_rounds(seed);
+        return first_use_rounds(seed, false, std::env::args().nth(4));
+    }
+    if std::env::args().nth(3).as_deref() == Some("first-ref") {
+        return first_use_rounds(seed, true, None);
     }
     let mut rng = Rng(seed);
     let mut jobs = Vec::new();
